@@ -71,13 +71,17 @@ class Log:
 class RecFile(io.BytesIO):
     """seekable file handed to wsgi.file_wrapper; records close()"""
 
-    def __init__(self, data, log, rid):
+    def __init__(self, data, log, rid, close_raises=False):
         super().__init__(data)
         self._log = log
         self._rid = rid
+        self._close_raises = close_raises
 
     def close(self):
         self._log.add("file-close", self._rid)
+        if self._close_raises:
+            # a file object whose close() fails (the call itself is what counts)
+            raise OSError(5, "app-failure-close-%s" % (self._rid,))
         super().close()
 
 
@@ -241,7 +245,7 @@ class Run:
                 fw = p.get("fw", {})
                 data = s2b(fw.get("content", ""))
                 if ret == "fw_seek":
-                    f = RecFile(data, self.log, self.rid)
+                    f = RecFile(data, self.log, self.rid, close_raises=bool(fw.get("close_raises")))
                     f.seek(fw.get("pos", 0))
                 elif ret == "fw_noseek":
                     f = NoSeekFile(data, self.log, self.rid)
